@@ -8,7 +8,8 @@ point; it is regenerated from the Go source on every run. `tableDisciplined` is 
 `C20_lockset_drf`, instantiated: every two conflicting accesses (same location, one of them a write — a method may
 also run concurrently with itself) are made under a common lock that at least one of them holds exclusively.
 Removing a Lock, downgrading it to RLock around a write, or moving an access out of its critical section changes
-the table and this obligation fails.
+the table and this obligation fails. For the replicated stores the reading of the clock (`….stamp`) counts as a write
+access: a stamp taken before the lock could be applied after a newer one.
 -/
 namespace Wasp.Conc
 open Wasp.Generated
@@ -33,7 +34,8 @@ theorem C20_table_all_locked : allLocked lockTable = true := by decide +kernel
 /-- the table covers every shared structure named by the property -/
 theorem C20_table_covers :
     (["registry.sessions", "idpool.intervals", "pqlist.pq", "pqlist.buckets", "bucket.data", "rettree.root", "subtree.root",
-      "dsessions.sessions", "dsubs.subscriptions", "dtopics.tree", "sessiontopics.topics"].all
+      "dsessions.sessions", "dsubs.subscriptions", "dtopics.tree", "sessiontopics.topics",
+      "dsessions.stamp", "dsubs.stamp", "dtopics.stamp"].all
         (fun loc => lockTable.any (fun e => e.1 == loc && e.2.2.1))) = true := by decide +kernel
 
 end Wasp.Conc
